@@ -30,7 +30,7 @@ def run_case(case, chooser):
     host = case.get("host", "127.0.0.1")
     # data_ports may be any iterable: a list, or a one-shot generator
     ports_arg = (p for p in list(pool)) if case.get("ports_as") == "generator" else list(pool)
-    rig = Rig(chooser=chooser, n_sessions=n, tree={"f": b"abc"}, host=host,
+    rig = Rig(chooser=chooser, n_sessions=n, tree={"f": b"abc"}, host=host, start_kwargs=case.get("start_kwargs"),
               server_kwargs={"data_ports": ports_arg, "wait_future_timeout": 1,
                              **({"socket_timeout": case["socket_timeout"]} if case.get("socket_timeout") else {})})
     try:
@@ -288,6 +288,15 @@ def build_items(tier):
                 b = 1 if name.endswith("race") else 0
                 items.append(("plan", {"name": name, "pool": ports, "n": n, "events": events, "plan": plan},
                               b, kinds_q, 3000))
+    # keyword arguments given to Server.start() (they are handed on to every passive listener as well)
+    for kw in ({"reuse_address": True}, {"reuse_address": False}, {"reuse_port": True}, {"backlog": 7},
+               {"reuse_address": True, "backlog": 3}):
+        for psize in (1, 2):
+            for name, n, events in (("kw-pasv-list-quit", 1, [(0, "PASV"), (0, "@data"), (0, "LIST"), (0, "QUIT")]),
+                                    ("kw-epsv-drop", 1, [(0, "EPSV"), (0, "@drop")]),
+                                    ("kw-two-sessions", 2, [(0, "PASV"), (1, "EPSV"), (0, "QUIT"), (1, "PASV"), (1, "QUIT")])):
+                items.append(("plan", {"name": name, "pool": PORTS[:psize], "n": n, "events": events, "plan": {},
+                                       "start_kwargs": kw}, 0, kinds_q, 3000))
     # a listener start-up that takes 5 s (slow resolver, stalled loop), without and with a socket_timeout shorter
     # than that; the session may die of it, the port may not get lost or doubled
     for psize in (1, 2):
@@ -311,7 +320,7 @@ def run(tier, seed, t0):
     bounds = {"pools": [0, 1, 2, 3], "sessions": "1..3", "control_connection": ["IPv4", "IPv6 (::1)"],
               "life_cycle": "close() after 6 short histories, then start() again and probe the whole pool; data_ports as list / generator", "sequence_depth": 3 if tier == "quick" else 5,
               "deviation_bound_races": 1 if tier == "quick" else 3,
-              "bind_plans": "3^(2*|pool|) for |pool| in {1,2}", "slow_start_up": "listener start-up of 5 virtual seconds, socket_timeout none / 2 s", "cases": len(items)}
+              "bind_plans": "3^(2*|pool|) for |pool| in {1,2}", "start_kwargs": "reuse_address / reuse_port / backlog given to Server.start()", "slow_start_up": "listener start-up of 5 virtual seconds, socket_timeout none / 2 s", "cases": len(items)}
     return report.finish(
         PID, tier, seed, "model_checking", part, t0,
         rule="each case = (pool, sessions, event script, bind plan) executed on the real aioftp.Server inside SimLoop; "
